@@ -34,7 +34,18 @@ Arguments Ok {A} a.
 Arguments Err {A} e.
 
 (* ---- index --------------------------------------------------------------------------------- *)
-Record field := mkField { fname : pv; fdom : list pv }.
+(* the Python container that holds a field's domain: msdm's domaintuple (TableIndex(field_names, field_domains),
+   every classmethod constructor, every restricted field), or the plain tuple / list the caller put into a
+   Field passed through TableIndex(fields=[...]).  It matters where msdm compares a selector or another index
+   with the domain by ==  (tuple == list is False in Python). *)
+Inductive domkind := DKDom | DKTuple | DKList.
+Record field := mkField { fname : pv; fdom : list pv; fkind : domkind }.
+Definition domval (f : field) : pv :=
+  match fkind f with
+  | DKDom => PDomTuple (fdom f)
+  | DKTuple => PTuple (fdom f)
+  | DKList => PList (fdom f)
+  end.
 Definition tindex := list field.
 
 Definition dom0 (ix : tindex) : list pv := match ix with f :: _ => fdom f | [] => [] end.
@@ -107,7 +118,7 @@ Fixpoint iif (sels : list pv) (fs : list field) (cs : bool) : res (list aent) :=
         match iif sels' fs' cs' with Ok es => Ok (e :: es) | Err x => Err x end in
       if pin s dom then
         match dom_index s dom with Ok i => continue (AInt i) cs | Err x => Err x end
-      else if pyeq s (PDomTuple dom) then
+      else if pyeq s (domval f) then
         if cs then Err EMultiple else continue ASlice true
       else
         match seqkind_of s with
@@ -196,7 +207,7 @@ Fixpoint upd_fields (es : list aent) (fs : list field) : list field :=
       | AInt _ => upd_fields es' fs'
       | ASlice => f :: upd_fields es' fs'
       | ASeq STuple _ => upd_fields es' fs'          (* a plain tuple of positions is "a singleton" *)
-      | ASeq _ l => mkField (fname f) (restrict (fdom f) l) :: upd_fields es' fs'
+      | ASeq _ l => mkField (fname f) (restrict (fdom f) l) DKDom :: upd_fields es' fs'
       end
   end.
 
@@ -207,14 +218,14 @@ Definition updated_index (ix : tindex) (ai : aidx) : option tindex :=
   | AIList [] => None                               (* all(...) over an empty list *)
   | AIList l =>
       match ix with
-      | f :: fs => Some (mkField (fname f) (restrict (fdom f) l) :: fs)
+      | f :: fs => Some (mkField (fname f) (restrict (fdom f) l) DKDom :: fs)
       | [] => Some []
       end
   | AITuple es => if forallb is_aslice es then None else Some (upd_fields es ix)
   end.
 
 Definition field_eqb (f g : field) : bool :=
-  pyeq (fname f) (fname g) && pyeq_list (fdom f) (fdom g).
+  pyeq (fname f) (fname g) && pyeq (domval f) (domval g).      (* Field is a NamedTuple: (name, domain) == (name, domain) *)
 Fixpoint tindex_eqb (a b : tindex) : bool :=
   match a, b with
   | [], [] => true
@@ -372,7 +383,7 @@ Fixpoint all_ix (shape : list nat) : list (list nat) :=
 Inductive obs :=
 | OSelf
 | OScalar (z : Z)
-| OTable (c : cls) (names : list pv) (doms : list (list pv)) (data : list Z) (probs : list obs)
+| OTable (c : cls) (names : list pv) (doms : list (list pv)) (data : list Z) (probs : list obs) (kinds : list domkind)
 | OErr (e : err)
 | ODefault
 | OEarly.
@@ -383,7 +394,7 @@ Definition obs_of_get (r : res (option gres)) : obs :=
   | Ok None => ODefault
   | Ok (Some GSelf) => OSelf
   | Ok (Some (GScalar z)) => OScalar z
-  | Ok (Some (GTable t)) => OTable (tcls t) [] [] [] []
+  | Ok (Some (GTable t)) => OTable (tcls t) [] [] [] [] []
   end.
 
 (* a returned table: class, names, domains, row-major data; for a TableDistribution also
@@ -394,7 +405,8 @@ Definition obs_table (t : table) : obs :=
          (match tcls t with
           | CDist => map (fun e => obs_of_get (table_get t e)) (keys t)
           | _ => []
-          end).
+          end)
+         (map fkind (tix t)).
 
 Definition obs_of (r : res gres) : obs :=
   match r with
@@ -430,7 +442,7 @@ Fixpoint ravel (shape ixs : list nat) (acc : nat) : nat :=
   | _, _ => acc
   end.
 Definition arange_table (c : cls) (fs : list (pv * list pv)) : table :=
-  let ix := map (fun p => mkField (fst p) (snd p)) fs in
+  let ix := map (fun p => mkField (fst p) (snd p) DKDom) fs in
   mkTable c ix (fun ixs => Z.of_nat (ravel (shape_of ix) ixs 0)).
 
 (* everything the harness observes about one table: keys, len, items, then per selector chain
